@@ -125,7 +125,7 @@ MUTANTS = {
 """, "", "caught"),
         ("skip-checksum", "tatsu/packetz/packet.py", "    if hash != actual:", "    if False and hash != actual:", "caught"),
         ("writer-truncates", "tatsu/packetz/queue.py", 'self.path.open("at", encoding="utf-8", buffering=1)', 'self.path.open("wt", encoding="utf-8", buffering=1)', "caught"),
-        ("write-without-newline", "tatsu/packetz/queue.py", 'queue.write(serial + "\\n")', 'queue.write(serial)', "caught"),
+        ("write-without-newline", "tatsu/packetz/queue.py", 'queue.write(self._line_start() + serial + "\\n")', 'queue.write(self._line_start() + serial)', "caught"),
         ("swallow-and-yield", "tatsu/packetz/queue.py", "                    continue  # Skip corrupt rows safely\n", "                    packet = Packet(to='?', data=None)\n", "caught"),
         ("revert-rle-fix", "tatsu/packetz/compact.py", '    return rle_pattern.sub(expand, text)\n', '    return re.sub(r"~([^~])(\\d+)~", lambda m: m.group(1) * int(m.group(2)), text).replace("~~", "~")\n', "caught"),
         ("revert-id-fix", "tatsu/util/misc.py", 'return f"{i2greek(mn, width=d)}-{i2greek(os.getpid())}-{i2greek(next(_id_serial))}"', "return i2greek(mn, width=d)", "caught"),
